@@ -150,7 +150,8 @@ def gen_queries(rng, tpl, files, nq):
         xn, xt = gen_excludes(rng, files, pts)
         qs.append({"start": s, "end": e, "sort": sort, "bundle": bundle, "nferr": rng.random() < 0.3,
                    "filters": gen_filters(rng, tpl, files), "xnames": xn, "xtimes": xt,
-                   "only_path": rng.random() < 0.15, "kind": kind})
+                   "only_path": rng.random() < 0.15, "kind": kind,
+                   "as_str": rng.random() < 0.15 and all(x is None or 1700 < x.year < 2250 for x in (s, e))})
     return qs
 
 
@@ -204,8 +205,12 @@ def real_find(fs, ids, q, paths_of):
     """runs the real find; returns ('ok', flat_or_bundles) or ('err', class)"""
     fs.exclude_files([paths_of[i] for i in q["xnames"]])
     fs.exclude_times(list(q["xtimes"]) or None)
+    a, b = q["start"], q["end"]
+    if q.get("as_str"):        # the public API also takes "YYYY-MM-DD hh:mm:ss[.ffffff]" strings (to_datetime)
+        a = a if a is None else a.isoformat(sep=" ")
+        b = b if b is None else b.isoformat(sep=" ")
     try:
-        res = list(fs.find(q["start"], q["end"], sort=q["sort"], bundle=q["bundle"], filters=q["filters"],
+        res = list(fs.find(a, b, sort=q["sort"], bundle=q["bundle"], filters=q["filters"],
                            no_files_error=q["nferr"], only_path=q["only_path"]))
     except Exception as e:  # noqa
         if os.environ.get("VERIF_DEBUG") and G.err_class(e).startswith("other"):
@@ -557,7 +562,7 @@ def main():
             run_case_json(ck, c, scratch, use_model)
         if use_model:
             calendar_cases(ck, ck.rng, ck.budget(300, 5000))
-        explore(ck, ck.budget(220, 3500), scratch, use_model, zip_share=0.0 if ck.tier == "quick" else 0.15)
+        explore(ck, ck.budget(300, 5000), scratch, use_model, zip_share=0.0 if ck.tier == "quick" else 0.15)
         if ck.broken() and not ck.violations:
             explore(ck, 1500, scratch, use_model=False)
     finally:
